@@ -7,8 +7,9 @@
 (* target index.  Parents come before children.                            *)
 (*   Walk(T, deref)    the member list writeall produces: the root, then   *)
 (*                     depth first with children in listing order; a link  *)
-(*                     is stored as a link, or - dereferenced - as what it *)
-(*                     points to (a directory link is walked into)         *)
+(*                     is stored as a link WITH ITS OWN TARGET (also when  *)
+(*                     that is another link), or - dereferenced - as what  *)
+(*                     the chain finally leads to (a directory is walked)  *)
 (*   Materialise(ms)   the tree extraction builds from a member list       *)
 (*   Expected(T, d)    the source tree, links replaced when dereferencing  *)
 (***************************************************************************)
@@ -18,11 +19,18 @@ Children(T, i) == { j \in 1..Len(T) : T[j].p = i }
 RECURSIVE IsAncestor(_, _, _)
 IsAncestor(T, a, i) == i # 0 /\ (T[i].p = a \/ IsAncestor(T, a, T[i].p))
 
+(* where a link finally leads: links may point at links (chains); 0 when the chain does not end within Len(T) hops (a cycle) *)
+RECURSIVE ResolveF(_, _, _)
+ResolveF(T, i, fuel) == IF T[i].k # "link" THEN i
+                        ELSE IF fuel = 0 \/ T[i].t = 0 THEN 0
+                        ELSE ResolveF(T, T[i].t, fuel - 1)
+Resolve(T, i) == ResolveF(T, i, Len(T))
+
 WellFormed(T) ==
   /\ \A i \in 1..Len(T) : /\ T[i].p < i /\ (T[i].p # 0 => T[T[i].p].k = "dir")
                           /\ (T[i].k = "link" => /\ T[i].t \in 1..Len(T) /\ T[i].t # i
-                                                 /\ T[T[i].t].k # "link"                  \* no link chains (kept simple)
-                                                 /\ ~IsAncestor(T, T[i].t, i))            \* not upward to an ancestor (infinite when dereferenced)
+                                                 /\ Resolve(T, i) # 0                     \* chains end somewhere
+                                                 /\ ~IsAncestor(T, Resolve(T, i), i))     \* not upward to an ancestor (infinite when dereferenced)
                           /\ (T[i].k # "link" => T[i].t = 0)
 
 (* a member: path = sequence of node indices from the root, what = kind, src = node whose content / target it carries *)
@@ -34,7 +42,7 @@ RECURSIVE WalkSet(_, _, _, _, _)
 WalkNode(T, i, prefix, deref, fuel) ==
   LET path == Append(prefix, i) IN
   IF T[i].k = "link" /\ ~deref THEN <<M(path, "link", T[i].t)>>
-  ELSE LET n == IF T[i].k = "link" THEN T[i].t ELSE i IN          \* what it denotes
+  ELSE LET n == IF T[i].k = "link" THEN Resolve(T, i) ELSE i IN   \* what it denotes (through a chain of links)
        IF T[n].k = "dir"
        THEN IF fuel = 0 THEN <<M(path, "dir", n)>>
             ELSE <<M(path, "dir", n)>> \o WalkSet(T, Children(T, n), path, deref, fuel - 1)
@@ -53,7 +61,7 @@ RECURSIVE ExpectNode(_, _, _, _, _)
 RECURSIVE ExpectSet(_, _, _, _, _)
 ExpectNode(T, i, prefix, deref, fuel) ==
   LET path == Append(prefix, i)
-      n == IF T[i].k = "link" /\ deref THEN T[i].t ELSE i IN
+      n == IF T[i].k = "link" /\ deref THEN Resolve(T, i) ELSE i IN
   IF T[n].k = "link" THEN {M(path, "link", T[n].t)}
   ELSE IF T[n].k = "dir" THEN {M(path, "dir", n)} \cup (IF fuel = 0 THEN {} ELSE ExpectSet(T, Children(T, n), path, deref, fuel - 1))
   ELSE {M(path, T[n].k, n)}
